@@ -8,7 +8,7 @@ import sys
 sys.path.insert(0, '.')
 from vlib import extract
 extract.build_driver()
-for c in extract.CONFIGS:
+for c in ("K1", "K2", "K3", "K4", "K5"):
     try:
         _, meta = extract.extract(c)
         print("warmed", c, meta)
